@@ -1136,7 +1136,7 @@ mzd_t *mzd_transpose(mzd_t *DST, mzd_t const *A) {
   }
 
   if (A->nrows == 0 || A->ncols == 0)
-    return mzd_copy(DST, A);
+    return DST; /* nothing to transpose (DST has the transposed, likewise empty, shape) */
 
   rci_t maxsize = MAX(A->nrows, A->ncols);
   if (__M4RI_UNLIKELY(mzd_is_dangerous_window(A))) {
